@@ -167,9 +167,19 @@ static void case_gauss(Rng& rng, uint64_t index)
 	for(int m = 0; m < 6; m++)
 	{
 		double p = pick_p(rng);
+		// far tails down to the last representable probabilities, k/2^53 and 1-k/2^53 (seeded change C07-r6m3 answered 10 for the double next to 1)
+		if(m == 5 && rng.coin(0.5))
+		{
+			double k = rng.coin(0.5) ? (double) rng.irange(1, 16) : std::floor(rng.loguni(1.0, 9e3));
+			p		 = rng.coin(0.6) ? 1.0 - k * 0x1p-53 : k * 0x1p-53;
+		}
 		double z = Quantile_Gauss(p, mu, sigma);
-		ld zref	 = (ld) mu + sqrtl(2.0L) * (ld) sigma * boost::math::erf_inv((ld) (2.0 * p - 1.0), boost_pol);
-		judge("quantile-gauss-inverts-cdf", (double) fabsl((ld) z - zref), std::sqrt(2.0) * 1e-4 * sigma + 4 * EPS * std::fabs(mu), [&] { return pj().d("p", p).d("Quantile_Gauss", z).d("reference", (double) zref); });
+		ld tref	 = boost::math::erf_inv((ld) (2.0 * p - 1.0), boost_pol);
+		ld zref	 = (ld) mu + sqrtl(2.0L) * (ld) sigma * tref;
+		// 1e-4 in the argument of erf, plus the range of arguments whose erf() rounds to the same double (4 eps / erf'(t)): in the far
+		// tails the probability does not resolve the quantile any better
+		double tol_t = 1e-4 + 4 * EPS / (2.0 / std::sqrt(M_PI) * std::exp(-(double) (tref * tref)));
+		judge("quantile-gauss-inverts-cdf", (double) fabsl((ld) z - zref), std::sqrt(2.0) * tol_t * sigma + 4 * EPS * std::fabs(mu), [&] { return pj().d("p", p).d("Quantile_Gauss", z).d("reference", (double) zref); });
 	}
 	if(index % 997 == 0)
 		sample();
